@@ -23,9 +23,9 @@ fn ribbon_ext<const C: usize>(fs: u32, depth: u32, lc: &mut LocalCounts) {
     let cfgs: [(f32, f32, f32); 2] = [(20e3, 820.0, 1e6), (10e3, 1e3, 11e3)];
     for (sp, dr, pu) in cfgs {
         let boundary = 1.0 - (dr / (dr + sp));
-        let vals: [f32; 7] = [0.0, f32::from_bits(1), 0.5, f32::from_bits(boundary.to_bits() - 1), boundary, f32::from_bits(boundary.to_bits() + 1), 1.0];
-        // operations: poll(v) for 7 values, a long run of poll(v) for 3 values, the four getters
-        let nops = 7 + 3 + 1;
+        let vals: [f32; 8] = [0.0, f32::from_bits(1), 0.5, f32::from_bits(boundary.to_bits() - 1), boundary, f32::from_bits(boundary.to_bits() + 1), 1.0, -0.0];
+        // operations: poll(v) for 8 values, a long run of poll(v) for 3 values, the four getters
+        let nops = 8 + 3 + 1;
         let total = (nops as u64).pow(depth);
         for seq in 0..total {
             let mut ops: Vec<String> = Vec::new();
@@ -35,11 +35,11 @@ fn ribbon_ext<const C: usize>(fs: u32, depth: u32, lc: &mut LocalCounts) {
                 for _ in 0..depth {
                     let o = (x % nops as u64) as usize;
                     x /= nops as u64;
-                    if o < 7 {
+                    if o < 8 {
                         ops.push(format!("poll:{:?}", vals[o]));
                         rib.poll(vals[o]);
-                    } else if o < 10 {
-                        let v = [0.0f32, 0.5, vals[3]][o - 7];
+                    } else if o < 11 {
+                        let v = [0.0f32, 0.5, vals[3]][o - 8];
                         ops.push(format!("poll:{:?}*{}", v, 2 * C + 40));
                         for _ in 0..(2 * C + 40) {
                             rib.poll(v);
@@ -447,6 +447,31 @@ fn ribbon_idle<const C: usize>(fs: u32, n: u64) {
     if !(v >= 0.0 && v <= 1.0) {
         panic!("value() = {:?} after a long press", v);
     }
+    // as many short touches (never a press)
+    r.poll(1.0);
+    for i in 0..n.min(200_000) {
+        r.poll(if i % 2 == 0 { 0.35 } else { 1.0 });
+    }
+    let _ = (r.value(), r.finger_is_pressing(), r.finger_just_pressed(), r.finger_just_released());
+}
+
+/// a sample rate with a fractional part: the buffer is sized by the helper from the whole number of hertz below it
+fn ribbon_fractional<const C: usize>(fs: f32) {
+    for (sp, dr, pu) in [(20e3f32, 820.0f32, 1e6f32), (10e3, 1e3, 11e3)] {
+        let mut r = RibbonController::<C>::new(fs, sp, dr, pu);
+        for _ in 0..(3 * C + 40) {
+            r.poll(0.4);
+        }
+        let _ = (r.value(), r.finger_is_pressing(), r.finger_just_pressed(), r.finger_just_released());
+        r.poll(1.0);
+        for _ in 0..(3 * C + 40) {
+            r.poll(0.2);
+        }
+        let v = r.value();
+        if !(v >= 0.0 && v <= 1.0) {
+            panic!("value() = {:?}", v);
+        }
+    }
 }
 
 /// (4) ordinary, interior argument values at many sample rates (the extreme-argument alphabets contain none), and
@@ -578,6 +603,27 @@ fn c17_more(ctx: &Ctx, rep: &mut Report, thorough: bool) {
         rep.count("ordinary_argument_cases", 3 * 2 * 4096);
         if let Err(e) = r {
             rep.violation(viol("panic-midi", format!("note messages with the priority / retrigger setters in between: {}", panic_msg(&e)), "midi", json!({"channel": 0}), vec!["# 4 note messages from a menu of 8 with set_note_priority before the second and set_retrigger_mode before the third".into()]));
+        }
+    }
+    // ribbon: sample rates that are not whole numbers of hertz (buffer sized by the helper from the integer part)
+    {
+        let r = std::panic::catch_unwind(|| {
+            for frac in [0.25f32, 0.5, 0.75, 0.96875] {
+                ribbon_fractional::<{ sample_rate_to_capacity(100) }>(100.0 + frac);
+                ribbon_fractional::<{ sample_rate_to_capacity(133) }>(133.0 + frac);
+                ribbon_fractional::<{ sample_rate_to_capacity(333) }>(333.0 + frac);
+                ribbon_fractional::<{ sample_rate_to_capacity(499) }>(499.0 + frac);
+                ribbon_fractional::<{ sample_rate_to_capacity(999) }>(999.0 + frac);
+                ribbon_fractional::<{ sample_rate_to_capacity(1999) }>(1999.0 + frac);
+                ribbon_fractional::<{ sample_rate_to_capacity(22050) }>(22050.0 + frac);
+                ribbon_fractional::<{ sample_rate_to_capacity(44117) }>(44117.0 + frac);
+                ribbon_fractional::<{ sample_rate_to_capacity(47999) }>(47999.0 + frac);
+                ribbon_fractional::<{ sample_rate_to_capacity(191999) }>(191999.0 + frac);
+            }
+        });
+        rep.count("ordinary_argument_cases", 40);
+        if let Err(e) = r {
+            rep.violation(viol("panic-ribbon", format!("ribbon controller at a non-integer sample rate (buffer sized by the helper from the whole hertz below): {}", panic_msg(&e)), "ribbon", json!({"fs": 499.5, "softpot": 20e3, "dropper": 820.0, "pullup": 1e6}), vec!["# RibbonController::<{sample_rate_to_capacity(n)}>::new(n + frac) for n in {100,133,333,499,999,1999,22050,44117,47999,191999}, frac in {.25,.5,.75,.96875}".into()]));
         }
     }
     // long repetitions, in parallel threads
